@@ -507,7 +507,7 @@ def run_c03(ctx):
         # (a)+(b): ordinary systems under many tolerance / maxiter settings
         for _ in range(n_std):
             st = next(it)
-            s = drv_solve.build_system(st, gen.Gen(rng, neg=0.2, tables=0.2), rng)
+            s = drv_solve.build_system(st, gen.Gen(rng, neg=0.2, tables=0.2, negphase=0.5), rng)
             c0 = record(s, {}, "std")
             n_iter = c0["sweeps"] if c0["outcome"] == "ok" else None
             for kw in settings(n_iter)[1:]:
